@@ -11,6 +11,14 @@ def check(rep, tier, rng):
     n = 150 if tier == "quick" else 3000
     variants = 6 if tier == "quick" else 12
     cases = t3.corpus_supported(n, rng, variants=variants)
+    # the construct catalogue as well: each specification plain, then under 2 random layouts / declaration orders
+    gi = n
+    for ctag, items in specgen.catalog():
+        cases.append({"text": specgen.render(items), "items": items, "group": gi, "mode": "plain", "meta": {}, "kind": "catalogue", "perm": False})
+        for mode in ("light", "wild"):
+            cases.append({"text": specgen.render(rng.shuffle(items), specgen.Layout(rng, mode)), "items": items, "group": gi, "mode": mode,
+                          "meta": {}, "kind": "catalogue", "perm": True})
+        gi += 1
     texts = [c["text"] for c in cases]
     # (1) same text, fresh processes (fresh hash seeds): byte-identical output
     nproc = 8
